@@ -26,6 +26,10 @@ def play(case):
     cls = msgs.classes()[case['cls']]
     rnd = common.rng('c08-%r' % (case['seed'],))
     m = msgs.fill(cls(), rnd, uid_len=case['uid_len'], ids=case['ids'])
+    for tag in case.get('unset', ()):
+        # optional fields the application never set keep the constructor's empty value
+        if tag in m.command_set:
+            m.command_set[tag].value = ''
     init = elems_of(m)
     ops, sends = [], []
     queued = []
@@ -55,7 +59,9 @@ def play(case):
             if tag not in m.command_set:
                 continue            # this message type has no such field
             elem = m.command_set[tag]
-            if elem.VR == 'UI':
+            if op[2] == 0:
+                elem.value = ''     # the field is unset again
+            elif elem.VR == 'UI':
                 elem.value = msgs.uid_of_len(op[2], rnd)
             elif elem.VR == 'US':
                 elem.value = op[2] % 65536
@@ -114,7 +120,7 @@ def gen_cases(tier, rnd):
                 for _ in range(rnd.randrange(0, 3)):
                     tag = rnd.choice([0x00000002, 0x00000003, 0x00000110, 0x00000120, 0x00000900, 0x00001000,
                                       0x00001020, 0x00001021])
-                    ops.append(['field', tag, rnd.choice([1, 2, 17, 18, 64, rnd.randrange(1, 65)])])
+                    ops.append(['field', tag, rnd.choice([0, 1, 2, 17, 18, 64, rnd.randrange(1, 65)])])
                 r = rnd.random()
                 if r < 0.3:
                     ops.append(['data', bytes(rnd.randrange(256) for _ in range(rnd.choice([1, 2, 30, 200]))).hex()])
@@ -123,7 +129,10 @@ def gen_cases(tier, rnd):
                 elif r < 0.55:
                     ops.append(['data', ''])
                 ops.append(['send', rnd.choice([1, 3, 255]), rnd.choice([0, 16384, 64, 30])])
-            cases.append({'cls': c, 'uid_len': rnd.randrange(1, 65), 'ids': rnd.randrange(65536), 'seed': seed, 'ops': ops})
+            cases.append({'cls': c, 'uid_len': rnd.randrange(1, 65), 'ids': rnd.randrange(65536), 'seed': seed, 'ops': ops,
+                          'unset': sorted(t for t in (0x00000002, 0x00000003, 0x00000110, 0x00000120, 0x00000600, 0x00000700,
+                                                      0x00001000, 0x00001001, 0x00001002, 0x00001005, 0x00001008,
+                                                      0x00001030, 0x00001031) if rnd.random() < 0.3)})
     # the C-FIND / C-MOVE provider patterns, and set-then-unset
     for c in range(ncls):
         seed += 1
@@ -138,7 +147,7 @@ def gen_cases(tier, rnd):
 
 def run(chk):
     chk.rule = ('all 23 message classes x UID lengths 1..64 x boundary ids, and histories of field changes / data set '
-                'set, replaced, emptied, removed / 1..4 sends of the same object, executed on real message objects through '
+                'set, replaced, emptied, removed / optional fields set, left unset and unset again / 1..4 sends of the same object, executed on real message objects through '
                 'the real Association.send; every transmitted command set read by the strict Lean reader (driver op '
                 'spec-cmd: group length = bytes that follow, ascending tags, command field = PS3.7 code, data-set type '
                 '<-> data fragments) and compared byte for byte with the Lean model Msg.run; non-trivial = histories '
